@@ -11,6 +11,7 @@ import JS.Spec.Equality
 import JS.Spec.Numeric
 import JS.Spec.Pointer
 import JS.Spec.Valid
+import JS.Py.EvalSrc
 namespace JS.Channels
 open JS JS.Codec
 
@@ -125,6 +126,12 @@ def evalGD (env : Env) (impl : FmtImpl) (d : Draft) (fc : Option FormatChecker) 
   | 0 => fun _ _ => stopG .fuel
   | n + 1 => evalStep env impl (d.cfg fc) (guardRecD d (evalGD env impl d fc n))
 
+/-- forget which undocumented exception ended a run (a crash is a crash) -/
+def crashBlind (o : Out) : Out :=
+  match o.stop with
+  | .raised (.crash _) => { o with stop := .raised (.crash "") }
+  | _ => o
+
 /-- VAL: one `iter_errors` run consumed per `budget`, from a fresh resolver -/
 def runVAL (env : Env) (p : Json) : Except Query Json :=
   let (cfg, _) := decCfg (fldD p "cls" .null) (fldD p "fc" .null)
@@ -144,7 +151,18 @@ def runVAL (env : Env) (p : Json) : Except Query Json :=
       | _, _ => eval env noFmtImpl cfg fuel inst schema budget st
     match o.stop with
     | .miss q => .error q
-    | _ => .ok (encOut o)
+    | _ =>
+      -- the same case through the evaluator whose keyword functions are the interpreted, regenerated
+      -- source (JS.Py.EvalSrc); the harness reports any difference as a disagreement
+      if guarded then .ok (encOut o) else
+      let os := Py.evalSrc env noFmtImpl cfg fuel inst schema budget st
+      match os.stop with
+      | .miss q => .error q
+      | _ =>
+        let same := encOut (crashBlind o) == encOut (crashBlind os)
+        match encOut o with
+        | .obj kvs => .ok (.obj (kvs ++ [("srcDiff".toList, if same then .null else encOut os)]))
+        | j => .ok j
 
 def decOp (j : Json) : Option Op :=
   match j with
